@@ -518,9 +518,12 @@ class RealizeMemrefCasts(RewritePattern):
         # insert "copy to" for first use as input
         # walk parent op in order to find first use as input
         assert op.parent
+        first_use: Operation | None = None
         for use_op in op.parent.walk():
             if use_op not in uses:
                 continue
+            if first_use is None:
+                first_use = use_op
             # check if input
             is_input = False
             if isinstance(use_op, linalg.GenericOp):
@@ -531,9 +534,10 @@ class RealizeMemrefCasts(RewritePattern):
             else:
                 is_input = True
             if is_input:
-                # insert copy op
+                # insert copy op, before any earlier use that writes the buffer:
+                # a copy placed after such a writer would overwrite its result
                 copy_op = memref.CopyOp(source_op.source, op.dest)
-                rewriter.insert_op(copy_op, InsertPoint.before(use_op))
+                rewriter.insert_op(copy_op, InsertPoint.before(first_use))
                 break
 
         # insert "copy from" for last use as output
